@@ -557,6 +557,7 @@ fn lifecycle(s: &mut Session, ev: Ev, interval_ms: u64, target: Target) {
     });
     let Some(ticker) = ticker else {
         s.fail("ticker-thread-not-started", "no new thread within 1 s of enable_steady_tick".into(), desc);
+        std::mem::forget(pb);
         return;
     };
     // let it tick once and park in wait_timeout_while
@@ -659,6 +660,7 @@ fn manual_tick(s: &mut Session, installed: bool, n: u64) {
         // the ticker ticks once right away, then waits for an hour
         if !wait_until(1000, || spinner_index(&term).is_some()) {
             s.fail("ticker-does-not-redraw", "no frame within 1 s of enable_steady_tick(1 h)".into(), desc);
+            std::mem::forget(pb);
             return;
         }
         std::thread::sleep(Duration::from_millis(20));
@@ -674,6 +676,7 @@ fn manual_tick(s: &mut Session, installed: bool, n: u64) {
     let after = spinner_index(&term);
     let (Some(before), Some(after)) = (before, after) else {
         s.fail("no-frame", format!("no spinner on the screen: {:?}", term.contents()), desc);
+        std::mem::forget(pb);
         return;
     };
     // tick strings cycle with period 60; n < 60 - before in every case generated here
@@ -686,7 +689,11 @@ fn manual_tick(s: &mut Session, installed: bool, n: u64) {
         );
     }
     s.count(if installed { "manual_tick:installed" } else { "manual_tick:free" });
-    s.case(format!("CManualTick {} {} {}%N {}%N", cbool(installed), n, before, after), desc, true);
+    s.case(format!("CManualTick {} {} {}%N {}%N", cbool(installed), n, before, after), desc.clone(), true);
+    // the drop joins the ticker: never on the main thread without the watchdog
+    if watchdog(move || drop(pb)).is_none() {
+        s.fail("deadlock", "drop of the bar (join of its 1 h ticker) did not return".into(), desc);
+    }
 }
 
 /// a steady ticker with a short interval redraws the bar without any manual tick
